@@ -181,7 +181,6 @@ hs_dateTime = (hs_isoDateTime + \
 
 hs_val = Forward()
 hs_list = Group( \
-    Suppress(Regex(r'[ *]')) |
     (Suppress(Regex(r'\[ *')) +
      Optional(DelimitedList( \
          hs_val, \
